@@ -113,6 +113,9 @@ pub struct Monitors {
     /// answers of the current window: hash -> (held snapshot before first answer, answers)
     win_answers: BTreeMap<[u8; 32], (Vec<usize>, Vec<(usize, Value, u64)>)>,
     told_height: u32,
+    /// maximum height told before the current driver window began (everything told then has been processed by the plugin:
+    /// the driver only acts after the system settled; a getinfo answered in the current window may still be in flight)
+    told_before_window: u32,
     pub grid_s: u64,
     life: u32,
     deliver_win: BTreeMap<usize, (u32, u64)>,
@@ -165,6 +168,7 @@ impl Monitors {
             cur_win: 0,
             win_answers: BTreeMap::new(),
             told_height: 0,
+            told_before_window: 0,
             grid_s: 0,
             life: 0,
             deliver_win: BTreeMap::new(),
@@ -243,9 +247,12 @@ impl Monitors {
         let (Some((b, a, _)), Some((fb, fa, _))) = (&hi.tramp, &fi.tramp) else { return (false, false) };
         let spec = &scn.htlcs[h];
         let mismatch = b != fb || a != fa;
-        let expiry = spec.cltv_rel < scn.cfg.policy_delta as i64;
+        let expiry = spec.cltv_rel < scn.cfg_at(self.life).policy_delta as i64;
         let total = spec.total_msat.or(spec.forward_msat).unwrap_or(0);
-        let fee = !fee_sufficient_ref(scn.cfg.base, scn.cfg.ppm, total, *a);
+        let fee = !fee_sufficient_ref(scn.cfg_at(self.life).base, scn.cfg_at(self.life).ppm, total, *a);
+        if std::env::var("VERIF_DEBUG").is_ok() {
+            eprintln!("is_rejecting h={h} first={first} life={} cfg={:?} total={total} a={a} mismatch={mismatch} expiry={expiry} fee={fee}", self.life, scn.cfg_at(self.life));
+        }
         (mismatch || expiry || fee, expiry && !mismatch)
     }
 
@@ -284,7 +291,7 @@ impl Monitors {
     }
 
     fn close_lifecycle(&mut self, s: &Shared, scn: &Scenario, hash: &[u8; 32], lc: Lifecycle, answers: &[(usize, Value, u64)], t_ans: u64) {
-        let cfg = &scn.cfg;
+        let cfg = &scn.cfg_at(self.life).clone();
         let first = lc.first.unwrap();
         let (_, amount, _) = self.info[first].tramp.clone().unwrap();
         let funded = fee_sufficient_ref(cfg.base, cfg.ppm, lc.sum.min(u64::MAX as u128) as u64, amount);
@@ -380,9 +387,10 @@ impl Monitors {
     pub fn on_event(&mut self, rec: &LogRec, s: &Shared, scn: &Scenario, _classes: &[Class]) {
         if rec.win != self.cur_win {
             self.finalize_window(s, scn);
+            self.told_before_window = self.told_height;
             self.cur_win = rec.win;
         }
-        let cfg = scn.cfg.clone();
+        let cfg = scn.cfg_at(self.life).clone();
         if scn.manual_getinfo {
             // C20: while the watcher runs, the next poll request arrives within 60 s of the previous answer
             if let (Some(prev), false) = (self.last_poll_answered_ms, self.poll_outstanding) {
@@ -423,6 +431,7 @@ impl Monitors {
                 self.life = rec.life;
                 self.outstanding.clear();
                 self.told_height = 0;
+                self.told_before_window = 0;
                 self.height_reads_max = 0;
                 self.last_poll_answered_ms = None;
                 self.poll_outstanding = false;
@@ -464,6 +473,10 @@ impl Monitors {
             Ev::HeightTold { h, via } => {
                 if *h != self.told_height {
                     self.stats.height_changes += 1;
+                }
+                if self.told_height == 0 {
+                    // the startup query: start() returns only after its answer was applied
+                    self.told_before_window = *h;
                 }
                 self.told_height = self.told_height.max(*h);
                 let _ = via;
@@ -716,7 +729,8 @@ impl Monitors {
                         }
                     }
                     if is_state && is_pending {
-                        let told = self.told_height;
+                        // a poll answered in this very window may not have reached the plugin when it read the height
+                        let told = self.told_before_window;
                         let t = self.tracks.entry(hash).or_default();
                         let min_expiry = t.held.iter().map(|h| scn.htlcs[*h].cltv_expiry).min();
                         if let Some(me) = min_expiry {
@@ -1089,7 +1103,7 @@ impl Monitors {
             }
         }
         // ---- C11: an incomplete set (no rejection, no attempt live, no fault) must not stay held for ever
-        let cfg = scn.cfg.clone();
+        let cfg = scn.cfg_at(self.life).clone();
         for (hash, t) in self.tracks.clone().iter() {
             let lc = &t.lc;
             if !lc.open || t.held.is_empty() || lc.any_rejecting || lc.tainted || lc.pay_issued || lc.genuine_error.is_some() || self.read_fault_hashes.contains(hash) {
